@@ -550,9 +550,13 @@ func runSyncAll(spec SyncSpec, pre, after func(a *exh.Node)) (out []SyncObs) {
 		ctx, cancel := context.WithTimeout(context.Background(), 2*wd+time.Second)
 		curVals := vals
 		if spec.NonValidator {
+			// the generator's address is replaced by a foreign one: the number of validators (the two- and three-round
+			// thresholds) stays the same, only the membership of the generator changes
 			curVals = []codec.Lisk32{}
 			for _, ad := range vals {
-				if !bytes.Equal(ad, senderNode.Tip().Header.GeneratorAddress) {
+				if bytes.Equal(ad, senderNode.Tip().Header.GeneratorAddress) {
+					curVals = append(curVals, codec.Lisk32(bytes.Repeat([]byte{0xee}, len(ad))))
+				} else {
 					curVals = append(curVals, ad)
 				}
 			}
